@@ -41,6 +41,33 @@ add("C20", "exploration",
     "exhaustive enumeration of compile-time programs (static_assert per case) against a reference",
     "DESIGN.md 2/C20", "E4")
 
+add("C03", "exploration",
+    "The interpolant is linear in the data, so the responses to a complete one-hot basis determine the weight every cell receives at a coordinate: every extent vector up to the bound x every basis field (+3 non-affine patterns) x a per-axis alphabet of lattice points, cell faces and the last cell, "
+    "for N in 1..5 and M in 1..4 independently, float/double coordinates and storage, over strided/Morton/Hilbert and with a clamp beneath; binary128 reference with an operation-count error bound; exact equality at lattice points; range clause.",
+    "dyadic coordinates only (weights exact); tolerance (2N+2^N+4)u; N=5 uses a cell-local basis at extent 3",
+    "bounded-exhaustive enumeration (extents x data basis x coordinate alphabet) against a binary128 reference model, on the implementation",
+    "DESIGN.md 2/C03", "E1+E3")
+add("C04", "exploration",
+    "Exhaustive over a boundary alphabet (every integer/half-integer of the small domain +-2ulp, exponent ladder to 2^30 / 2^61, largest half-integers of each type) and its N-fold products, float and double coordinates, observed through nearest_neighbour<identity<long^N>> and through array-backed strided/Morton/Hilbert fields; oracle 2|nc-c|<=1 in binary128.",
+    "default rounding mode; NaN excluded; coordinates between alphabet points are not enumerated",
+    "exhaustive enumeration of a boundary coordinate alphabet with an exact-arithmetic oracle, on the implementation",
+    "DESIGN.md 2/C04", "E1+E3")
+add("C09", "exploration",
+    "Exact equality over every small-integer affine map and vector (all entries for N<=3, deviation-bounded for N=4), every product of up to 4 generator transforms compared with function composition, the factories on a grid, plus an inexact ladder with an operation-count bound; float and double; layer and operator observed separately.",
+    "small-integer alphabets make every operation exact; inexact bound (N+2)u",
+    "bounded-exhaustive enumeration of matrices / operation sequences (products up to depth 4) against an integer reference model",
+    "DESIGN.md 2/C09", "E1+E3")
+add("C10", "exploration",
+    "N-fold products of an extreme-value alphabet (type minima/maxima, infinities, signed zeros, values equal and adjacent to each bound) over every box combination, six coordinate types, N=1..4; the delegated coordinate is read back through clamp<identity>, storage safety through the probe backend (index in bounds) and the real array under ASan; clamp above and below an interpolator.",
+    "NaN excluded; boxes from a 3-element family per axis",
+    "exhaustive enumeration of a boundary coordinate alphabet x box configurations, probe backend + ASan as oracle",
+    "DESIGN.md 2/C10", "E1+E2")
+add("C11", "exploration",
+    "Same alphabet/box products as C10 over backup<probe_fn<N,M>> for N, M in 1..4 independently and six type pairs; the probe counts queries and remembers the coordinate, so 'without touching the backend' and 'exactly the backend's value at that coordinate' are decided per case.",
+    "NaN excluded; probe_fn stands for any backend",
+    "exhaustive enumeration of a boundary coordinate alphabet x box configurations with a query-counting probe backend",
+    "DESIGN.md 2/C11", "E1+E2")
+
 def main():
     props = [json.loads(l) for l in open(os.path.join(V, "properties.jsonl"))]
     checks, na = [], []
